@@ -405,9 +405,9 @@ pub fn run_case(c: &CliCase, bin: &str, work: &str, uid: &str, out: &str) -> Run
     };
     let proc = run_bin_env(bin, &args, stdin_bytes.as_deref(), 60, pool_env(&c.req()));
     let files = collect(out, c.out_is_dir());
-    let _ = std::fs::remove_file(&inp);
+    crate::p_file::remove_input(&inp);
     if let Some(a) = alt {
-        let _ = std::fs::remove_file(a);
+        crate::p_file::remove_input(&a);
     }
     RunResult { proc, files }
 }
